@@ -695,18 +695,40 @@ func (ex *Exec) callBuiltin(caller *frame, callpos token.Pos, fn *ssa.Builtin, a
 		if len(args) == 1 {
 			return args[0]
 		}
+		dst := args[0].([]value)
+		var add []value
 		if isStr(args[1]) {
 			// append([]byte, ...string) []byte
-			return append(args[0].([]value), strBytes(args[1])...)
+			add = strBytes(args[1])
+		} else {
+			add = args[1].([]value)
 		}
-		return append(args[0].([]value), args[1].([]value)...)
+		if ex.frozen != nil || ex.hooks != nil {
+			if len(dst)+len(add) <= cap(dst) {
+				full := dst[:cap(dst)]
+				for i := len(dst); i < len(dst)+len(add); i++ {
+					ex.noteWrite(caller, &full[i])
+				}
+			}
+		}
+		return append(dst, add...)
 
 	case "copy": // copy([]T, []T) int or copy([]byte, string) int
 		src := args[1]
 		if isStr(src) {
 			src = strBytes(src)
 		}
-		return copy(args[0].([]value), src.([]value))
+		dstc := args[0].([]value)
+		if ex.frozen != nil || ex.hooks != nil {
+			n := len(dstc)
+			if len(src.([]value)) < n {
+				n = len(src.([]value))
+			}
+			for i := 0; i < n; i++ {
+				ex.noteWrite(caller, &dstc[i])
+			}
+		}
+		return copy(dstc, src.([]value))
 
 	case "delete":
 		m := args[0].(*omap)
